@@ -52,6 +52,9 @@ def run(ctx):
         rule_ordered_collects(d5, "C05.O", fb_, 1)
         rule_sink_sequential(d5, "C05.O", fb_, "oligo::vectorise_batch")
         rule_flush_pairing(d5, "C05.F", fb_, "oligo::vectorise_batch")
+    fmm_ = ctx.view("composition::oligo::OligoComputer::vectorise_mmap")
+    if fmm_ is not None:
+        rule_spawn_count(dep(ctx, "C04", "C05"), "C05.L", fmm_, "vectorise_mmap")      # a row per record needs a worker
     from . import c06
     c06.reader_deps(ctx, "C04")
     from . import c15
